@@ -7,60 +7,111 @@ import FocaModel.Proofs.ComposeC
 import FocaModel.Proofs.Frames
 namespace Foca
 
-def probeToks (eff : List Effect) : List Nat :=
-  eff.filterMap (fun e => match e with | .timer _ (.probe t) => some t | _ => none)
+/-- the four recurring loops -/
+inductive LoopKind | probe | pa | pad | pg
+deriving DecidableEq, Repr
 
-theorem probeToks_append (a b : List Effect) : probeToks (a ++ b) = probeToks a ++ probeToks b := by
-  simp [probeToks, List.filterMap_append]
+/-- the token of a timer of loop `k` (none for timers of other kinds) -/
+def LoopKind.sel : LoopKind → Timer → Option Nat
+  | .probe, .probe t => some t
+  | .pa, .pa t => some t
+  | .pad, .pad t => some t
+  | .pg, .pg t => some t
+  | _, _ => none
 
-theorem probeToks_other (e : Effect) (h : probeTimer e = false) : probeToks [e] = [] := by
+/-- is loop `k` enabled by the configuration (the probe loop always is) -/
+def LoopKind.en : LoopKind → Config → Bool
+  | .probe, _ => true
+  | .pa, c => c.pa.isSome
+  | .pad, c => c.pad.isSome
+  | .pg, c => c.pg.isSome
+
+/-- tokens of the timers of loop `k` among the effects -/
+def loopToks (k : LoopKind) (eff : List Effect) : List Nat :=
+  eff.filterMap (fun e => match e with | .timer _ t => k.sel t | _ => none)
+
+def kindTimer (k : LoopKind) : Effect → Bool
+  | .timer _ t => (k.sel t).isSome
+  | _ => false
+
+theorem loopToks_append (k : LoopKind) (a b : List Effect) : loopToks k (a ++ b) = loopToks k a ++ loopToks k b := by
+  simp [loopToks, List.filterMap_append]
+
+theorem loopToks_other (k : LoopKind) (e : Effect) (h : kindTimer k e = false) : loopToks k [e] = [] := by
   cases e with
   | send d b => rfl
   | notify n => rfl
-  | timer ms t => cases t <;> first | rfl | simp [probeTimer] at h
+  | timer ms t =>
+    simp only [kindTimer] at h
+    simp only [loopToks, List.filterMap_cons, List.filterMap_nil]
+    cases hs : k.sel t with
+    | none => rfl
+    | some x => rw [hs] at h; simp at h
 
-/-- `P` looks only at connection state, token, epoch and the probe timers emitted -/
-def TimerFrame (P : State → List Effect → Prop) : Prop :=
+/-- a timer that is no loop timer, or an effect that is no timer, is of no kind -/
+theorem kindTimer_of_not_loop (k : LoopKind) (e : Effect) (h : loopTimer e = false) : kindTimer k e = false := by
+  cases e with
+  | send d b => rfl
+  | notify n => rfl
+  | timer ms t => cases k <;> cases t <;> simp [loopTimer, Timer.isLoop] at h <;> rfl
+
+/-- `P` looks only at connection state, token, epoch, whether loop `k` is enabled (which may only be switched
+    off), and the timers of loop `k` emitted -/
+def TimerFrame (k : LoopKind) (P : State → List Effect → Prop) : Prop :=
   ∀ s s' eff eff', s'.conn = s.conn → s'.token = s.token → s'.epoch = s.epoch →
-    probeToks eff' = probeToks eff → P s eff → P s' eff'
+    (k.en s'.cfg = true → k.en s.cfg = true) → loopToks k eff' = loopToks k eff → P s eff → P s' eff'
+
+/-- the same with the configuration unchanged: what the quiet computations need -/
+def QuietFrame (k : LoopKind) (P : State → List Effect → Prop) : Prop :=
+  ∀ s s' eff eff', s'.conn = s.conn → s'.token = s.token → s'.epoch = s.epoch → s'.cfg = s.cfg →
+    loopToks k eff' = loopToks k eff → P s eff → P s' eff'
+
+theorem TimerFrame.quiet {k : LoopKind} {P : State → List Effect → Prop} (h : TimerFrame k P) : QuietFrame k P :=
+  fun s s' eff eff' h1 h2 h3 h4 h5 hp => h s s' eff eff' h1 h2 h3 (by rw [h4]; exact id) h5 hp
 
 /-- what a quiet computation does -/
-def QuietOK {α} (c : Ctx) (r : R α) : Prop :=
+def QuietOK {α} (k : LoopKind) (c : Ctx) (r : R α) : Prop :=
   match r with
-  | .ok _ c' => c'.s.conn = c.s.conn ∧ c'.s.token = c.s.token ∧ c'.s.epoch = c.s.epoch ∧ probeToks c'.eff = probeToks c.eff
-  | .err _ c' => c'.s.conn = c.s.conn ∧ c'.s.token = c.s.token ∧ c'.s.epoch = c.s.epoch ∧ probeToks c'.eff = probeToks c.eff
+  | .ok _ c' => c'.s.conn = c.s.conn ∧ c'.s.token = c.s.token ∧ c'.s.epoch = c.s.epoch ∧ c'.s.cfg = c.s.cfg ∧
+      loopToks k c'.eff = loopToks k c.eff
+  | .err _ c' => c'.s.conn = c.s.conn ∧ c'.s.token = c.s.token ∧ c'.s.epoch = c.s.epoch ∧ c'.s.cfg = c.s.cfg ∧
+      loopToks k c'.eff = loopToks k c.eff
   | .stuck _ => True
 
-theorem PresC.of_quiet {α} {P : State → List Effect → Prop} (hP : TimerFrame P) {m : M α}
-    (h : ∀ c, QuietOK c (m c)) : PresC P m :=
+theorem PresC.of_quiet {α} {k : LoopKind} {P : State → List Effect → Prop} (hP : QuietFrame k P) {m : M α}
+    (h : ∀ c, QuietOK k c (m c)) : PresC P m :=
   ⟨fun c hc => by
     have := h c
     unfold QuietOK at this
     cases hm : m c with
     | stuck x => trivial
-    | err e c' => rw [hm] at this; exact hP c.s _ c.eff _ this.1 this.2.1 this.2.2.1 this.2.2.2 hc
-    | ok a c' => rw [hm] at this; exact hP c.s _ c.eff _ this.1 this.2.1 this.2.2.1 this.2.2.2 hc⟩
+    | err e c' =>
+      rw [hm] at this
+      exact hP c.s _ c.eff _ this.1 this.2.1 this.2.2.1 this.2.2.2.1 this.2.2.2.2 hc
+    | ok a c' =>
+      rw [hm] at this
+      exact hP c.s _ c.eff _ this.1 this.2.1 this.2.2.1 this.2.2.2.1 this.2.2.2.2 hc⟩
 
-theorem quiet_membersApply (u : Member) (c : Ctx) : QuietOK c (membersApply u c) := by
+theorem quiet_membersApply (k : LoopKind) (u : Member) (c : Ctx) : QuietOK k c (membersApply u c) := by
   unfold Foca.membersApply QuietOK
   cases h : Foca.applyExisting c.s.ms u (fun _ => true) with
-  | some r => obtain ⟨ms', sm⟩ := r; exact ⟨rfl, rfl, rfl, rfl⟩
+  | some r => obtain ⟨ms', sm⟩ := r; exact ⟨rfl, rfl, rfl, rfl, rfl⟩
   | none =>
     simp only
     have hd := drawIdx_frame .choose (c.s.ms.length + 1) c
     cases hdr : Foca.drawIdx .choose (c.s.ms.length + 1) c with
     | stuck x => trivial
-    | err e c1 => rw [hdr] at hd; simp only at hd ⊢; rw [hd.1, hd.2]; exact ⟨rfl, rfl, rfl, rfl⟩
-    | ok j c1 => rw [hdr] at hd; simp only at hd ⊢; rw [hd.1, hd.2]; exact ⟨rfl, rfl, rfl, rfl⟩
+    | err e c1 => rw [hdr] at hd; simp only at hd ⊢; rw [hd.1, hd.2]; exact ⟨rfl, rfl, rfl, rfl, rfl⟩
+    | ok j c1 => rw [hdr] at hd; simp only at hd ⊢; rw [hd.1, hd.2]; exact ⟨rfl, rfl, rfl, rfl, rfl⟩
 
-theorem quiet_membersApplyExistingIf (u : Member) (cond : Member → Bool) (c : Ctx) :
-    QuietOK c (membersApplyExistingIf u cond c) := by
+theorem quiet_membersApplyExistingIf (k : LoopKind) (u : Member) (cond : Member → Bool) (c : Ctx) :
+    QuietOK k c (membersApplyExistingIf u cond c) := by
   unfold Foca.membersApplyExistingIf QuietOK
   cases h : Foca.applyExisting c.s.ms u cond with
-  | some r => obtain ⟨ms', sm⟩ := r; exact ⟨rfl, rfl, rfl, rfl⟩
-  | none => exact ⟨rfl, rfl, rfl, rfl⟩
+  | some r => obtain ⟨ms', sm⟩ := r; exact ⟨rfl, rfl, rfl, rfl, rfl⟩
+  | none => exact ⟨rfl, rfl, rfl, rfl, rfl⟩
 
-theorem quiet_membersNext (c : Ctx) : QuietOK c (membersNext c) := by
+theorem quiet_membersNext (k : LoopKind) (c : Ctx) : QuietOK k c (membersNext c) := by
   unfold Foca.membersNext QuietOK
   by_cases hs : needsShuffle c.s.cursor c.s.ms.length = true
   · simp only [hs, if_true]
@@ -77,57 +128,58 @@ theorem quiet_membersNext (c : Ctx) : QuietOK c (membersNext c) := by
         · simp [hperm]
   · simp [hs]
 
-theorem quiet_sendMessage (E : Env) (d : Id) (m : Msg) (c : Ctx) : QuietOK c (sendMessage E d m c) := by
+theorem quiet_sendMessage (E : Env) (k : LoopKind) (d : Id) (m : Msg) (c : Ctx) : QuietOK k c (sendMessage E d m c) := by
   have := sendMessage_spec E d m c
   unfold QuietOK
   cases h : Foca.sendMessage E d m c with
   | stuck x => trivial
-  | err e c' => rw [h] at this; simp only at this ⊢; rw [this.2.1, this.2.2]; exact ⟨rfl, rfl, rfl, rfl⟩
+  | err e c' => rw [h] at this; simp only at this ⊢; rw [this.2.1, this.2.2]; exact ⟨rfl, rfl, rfl, rfl, rfl⟩
   | ok a c' =>
     rw [h] at this
     obtain ⟨hob, body, heff, _⟩ := this
     simp only
     unfold OnlyBacklogs at hob
-    refine ⟨by rw [hob], by rw [hob], by rw [hob], ?_⟩
-    rw [heff, probeToks_append]
-    simp [probeToks]
+    refine ⟨by rw [hob], by rw [hob], by rw [hob], by rw [hob], ?_⟩
+    rw [heff, loopToks_append]
+    simp [loopToks]
 
 /-- the primitives every effect-aware timer invariant gets for free -/
-structure CoreC (E : Env) (P : State → List Effect → Prop) : Prop where
+structure CoreC (E : Env) (k : LoopKind) (P : State → List Effect → Prop) : Prop where
   keep : ∀ f, Keep4 f → PresC P (modS f)
-  emitNP : ∀ e, probeTimer e = false → PresC P (emit e)
+  emitNP : ∀ e, kindTimer k e = false → PresC P (emit e)
   removeDown : ∀ id, PresC P (modS fun s => { s with ms := removeIfDown s.ms id })
   membersNext : PresC P membersNext
   membersApply : ∀ u, PresC P (membersApply u)
   membersApplyExistingIf : ∀ u cond, PresC P (membersApplyExistingIf u cond)
   sendMessage : ∀ d m, PresC P (sendMessage E d m)
 
-theorem CoreC.of_frame (E : Env) {P : State → List Effect → Prop} (hP : TimerFrame P) : CoreC E P where
+theorem CoreC.of_frame (E : Env) {k : LoopKind} {P : State → List Effect → Prop} (hP : QuietFrame k P) : CoreC E k P where
   keep := fun f h => ⟨fun c hc => by
-    simp only [modS_run]; exact hP c.s _ c.eff _ (h c.s).2.1 (h c.s).2.2.1 (h c.s).2.2.2 rfl hc⟩
+    simp only [modS_run]
+    exact hP c.s _ c.eff _ (h c.s).2.1 (h c.s).2.2.1 (h c.s).2.2.2.1 (h c.s).2.2.2.2 rfl hc⟩
   emitNP := fun e he => ⟨fun c hc => by
     simp only [emit_run]
-    exact hP c.s _ c.eff _ rfl rfl rfl (by rw [probeToks_append, probeToks_other e he, List.append_nil]) hc⟩
-  removeDown := fun id => ⟨fun c hc => by simp only [modS_run]; exact hP c.s _ c.eff _ rfl rfl rfl rfl hc⟩
-  membersNext := PresC.of_quiet hP quiet_membersNext
-  membersApply := fun u => PresC.of_quiet hP (quiet_membersApply u)
-  membersApplyExistingIf := fun u cond => PresC.of_quiet hP (quiet_membersApplyExistingIf u cond)
-  sendMessage := fun d m => PresC.of_quiet hP (quiet_sendMessage E d m)
+    exact hP c.s _ c.eff _ rfl rfl rfl rfl (by rw [loopToks_append, loopToks_other k e he, List.append_nil]) hc⟩
+  removeDown := fun i => ⟨fun c hc => by simp only [modS_run]; exact hP c.s _ c.eff _ rfl rfl rfl rfl rfl hc⟩
+  membersNext := PresC.of_quiet hP (quiet_membersNext k)
+  membersApply := fun u => PresC.of_quiet hP (quiet_membersApply k u)
+  membersApplyExistingIf := fun u cond => PresC.of_quiet hP (quiet_membersApplyExistingIf k u cond)
+  sendMessage := fun d m => PresC.of_quiet hP (quiet_sendMessage E k d m)
 
 section
-variable {E : Env} {P : State → List Effect → Prop} (K : CoreC E P)
+variable {E : Env} {k : LoopKind} {P : State → List Effect → Prop} (K : CoreC E k P)
 include K
 
 theorem CoreC.addUpdate (m : Member) : PresC P (Foca.addUpdate E m) := by
   unfold Foca.addUpdate
-  exact K.keep _ (fun _ => ⟨rfl, rfl, rfl, rfl⟩)
+  exact K.keep _ (fun _ => ⟨rfl, rfl, rfl, rfl, rfl⟩)
 
 theorem CoreC.handleApplySummary (sm : Summary) (u : Member) (b : Bool) : PresC P (Foca.handleApplySummary E sm u b) := by
   unfold Foca.handleApplySummary
   presc
   all_goals first
     | exact K.addUpdate _
-    | exact K.emitNP _ rfl
+    | exact K.emitNP _ (kindTimer_of_not_loop k _ rfl)
 
 theorem CoreC.applyUpdate (u : Member) (b : Bool) : PresC P (Foca.applyUpdate E u b) := by
   unfold Foca.applyUpdate
@@ -145,18 +197,45 @@ theorem CoreC.probeSuspectFailed : PresC P (Foca.probeSuspectFailed E) := by
   unfold Foca.probeSuspectFailed
   presc
   all_goals first
-    | exact K.keep _ (fun _ => ⟨rfl, rfl, rfl, rfl⟩)
+    | exact K.keep _ (fun _ => ⟨rfl, rfl, rfl, rfl, rfl⟩)
     | exact K.applyExistingReport _ _
-    | exact K.emitNP _ rfl
+    | exact K.emitNP _ (kindTimer_of_not_loop k _ rfl)
 
 theorem CoreC.probeStartNext : PresC P (Foca.probeStartNext E) := by
   unfold Foca.probeStartNext
   presc
   all_goals first
     | exact K.membersNext
-    | exact K.keep _ (fun _ => ⟨rfl, rfl, rfl, rfl⟩)
+    | exact K.keep _ (fun _ => ⟨rfl, rfl, rfl, rfl, rfl⟩)
     | exact K.sendMessage _ _
-    | exact K.emitNP _ rfl
+    | exact K.emitNP _ (kindTimer_of_not_loop k _ rfl)
+
+theorem CoreC.sendAll (msg : Msg) (ds : List Id) : PresC P (Foca.sendAll E msg ds) := by
+  induction ds with
+  | nil => unfold Foca.sendAll; exact PresC.pure _
+  | cons d rest ih => unfold Foca.sendAll; exact PresC.bind (K.sendMessage d msg) (fun _ => ih)
+
+theorem CoreC.chooseAndSend (n : Nat) (msg : Msg) : PresC P (Foca.chooseAndSend E n msg) := by
+  unfold Foca.chooseAndSend
+  presc
+  exact K.sendAll _ _
+
+theorem CoreC.announceToDown (n : Nat) : PresC P (Foca.announceToDown E n) := by
+  unfold Foca.announceToDown
+  presc
+  exact K.sendAll _ _
 
 end
+
+/-- "nothing the accounting of loop `k` looks at has changed since `c0`" -/
+def QuietSince (k : LoopKind) (c0 : Ctx) (s : State) (eff : List Effect) : Prop :=
+  s.conn = c0.s.conn ∧ s.token = c0.s.token ∧ s.epoch = c0.s.epoch ∧ s.cfg = c0.s.cfg ∧
+    loopToks k eff = loopToks k c0.eff
+
+theorem QuietSince.frame (k : LoopKind) (c0 : Ctx) : QuietFrame k (QuietSince k c0) := by
+  intro s s' eff eff' h1 h2 h3 h4 h5 h
+  unfold QuietSince at *
+  rw [h1, h2, h3, h4, h5]
+  exact h
+
 end Foca
